@@ -27,7 +27,8 @@ RULE = ("arbitrary strings as queries: token soup over the lexer's own alphabet 
 TRUSTED = ["time spent inside Python's re engine and inputs nested deeper than 100 levels are outside the claim; termination "
            "of the real lexer rests on every alternative of the master regex being non-empty (model: Lex.tokenize consumes "
            "at least one character per step) and on re itself"]
-ASSUMPTIONS = ["each call is run under a 5 s alarm; hitting it is reported as non-termination"]
+ASSUMPTIONS = ["each call is run under a 10 s alarm and, if that fires, once more under a 120 s alarm; hitting the second is reported "
+               "as non-termination (the calls take well under a millisecond)"]
 
 ALPHABET = ["$", "@", "^", "#", "_", "~", "|", "&", ".", "..", "*", "?", "[", "]", "(", ")", ",", ":", "'", '"', "\\", "/", "-", "+",
             "0", "1", "9", "01", "1e2", "1e-2", "1E+3", "1.5", "1.", ".5", "-", "1e999", "1e", "e", "==", "!=", "<>", "<=", ">=", "<", ">",
@@ -48,12 +49,17 @@ def _alarm(signum, frame):
     raise Timeout()
 
 
-def guarded(f):
+def guarded(f, seconds=10):
     old = signal.signal(signal.SIGALRM, _alarm)
-    signal.alarm(5)
+    signal.alarm(seconds)
     try:
         return f()
     except Timeout:
+        if seconds < 120:
+            # a loaded machine is not non-termination: once more, with a long limit, before saying so
+            signal.alarm(0)
+            signal.signal(signal.SIGALRM, old)
+            return guarded(f, 120)
         return ["did-not-terminate"]
     except RecursionError:
         return ["err", "recursion-limit"]
